@@ -359,7 +359,7 @@ def Wanted (r : Sub.Req) (q : List (Sub.Item × Nat)) : Prop :=
 def SndRel (blocked : Option Sub.Resp) (b : LSub) : Prop :=
   match blocked with
   | none => b.snd = .idle ∧ b.armed = false
-  | some r => (r = .sync ∧ b.snd = .sendSync ∧ b.armed = false) ∨
+  | some r => (r = .sync ∧ b.snd = .sendSync ∧ b.armed = true) ∨
       (r ≠ .sync ∧ respOK r ∧ ∃ r', b.snd = .sending r' ∧ b.armed = true ∧ eraseDup r' = absResp r)
 
 /-- a live STREAM subscriber and its LTS client (handler in `<-errC`, walk over, registered) -/
@@ -465,10 +465,10 @@ theorem dequeue_sim (reqs : Nat → Sub.Req × Sub.Acl) {sh : LShared} {rq : Sub
       have := h.nca; rw [hq] at this; exact (List.pairwise_cons.1 this).2
     rcases mkResp_rel (reqs := reqs) hI itd ld with ⟨rfl, rfl⟩ | ⟨r', tg, hmk, her, hrt, hit, hns, hrok⟩
     · -- the sync marker
-      refine ⟨[.next, .build], { b with q := ys, snd := .sendSync, deliv := b.deliv ++ [(.syncMarker, ld)] }, ?_, ?_⟩
+      refine ⟨[.next, .build], { b with q := ys, snd := .sendSync, armed := true, deliv := b.deliv ++ [(.syncMarker, ld)] }, ?_, ?_⟩
       · have hbuild : SubLTS.subFire (C06Glue.subSys reqs) (ltsOf rq) sh
             { b with q := ys, snd := .got .syncMarker ld, deliv := b.deliv ++ [(.syncMarker, ld)] } .build =
-            some { b with q := ys, snd := .sendSync, deliv := b.deliv ++ [(.syncMarker, ld)] } := by
+            some { b with q := ys, snd := .sendSync, armed := true, deliv := b.deliv ++ [(.syncMarker, ld)] } := by
           simp [SubLTS.subFire, SubLTS.mkResp]
         simp only [runSub, hnext, hbuild]
       · have hd : Sub.denied s.acl (Sub.toResp (Sub.Item.sync, itd)) = false := rfl
@@ -476,7 +476,7 @@ theorem dequeue_sim (reqs : Nat → Sub.Req × Sub.Acl) {sh : LShared} {rq : Sub
         simp only [Bool.false_eq_true, if_false]
         exact { alive := h.alive, req := h.req, acl := h.acl, mode := h.mode, regs := h.regs, closed := h.closed,
                 status := h.status, pc := h.pc, reg := h.reg, bclosed := h.bclosed, bstatus := h.bstatus,
-                walker := h.walker, gate := h.gate, q := hQ', snd := Or.inl ⟨rfl, rfl, harm⟩, sent := h.sent,
+                walker := h.walker, gate := h.gate, q := hQ', snd := Or.inl ⟨rfl, rfl, rfl⟩, sent := h.sent,
                 single := hsingle, nca := hnca, wanted := hwanted }
     · have hden : Sub.denied s.acl (Sub.toResp (iti, itd)) = !rq.2.check tg := by
         simp only [Sub.denied, hrt, h.acl]
@@ -544,13 +544,13 @@ theorem release_sim (reqs : Nat → Sub.Req × Sub.Acl) {sh : LShared} {rq : Sub
   rw [hb] at hsnd
   have hreq := h.req
   rcases hsnd with ⟨rfl, hss, harm⟩ | ⟨hns, hrok, r', hss, harm, her⟩
-  · refine ⟨{ b with snd := .idle, sent := b.sent ++ [.sync] }, ?_, ?_⟩
+  · refine ⟨{ b with snd := .idle, armed := false, sent := b.sent ++ [.sync] }, ?_, ?_⟩
     · simp [runSub, SubLTS.subFire, hg, hss]
     · have : Sub.isTargetDelete Sub.Resp.sync = false := rfl
       simp only [this, Bool.false_and, Bool.false_eq_true, if_false, releaseS]
       exact { alive := h.alive, req := h.req, acl := h.acl, mode := h.mode, regs := h.regs, closed := h.closed,
               status := h.status, pc := h.pc, reg := h.reg, bclosed := h.bclosed, bstatus := h.bstatus,
-              walker := h.walker, gate := h.gate, q := h.q, snd := ⟨rfl, harm⟩,
+              walker := h.walker, gate := h.gate, q := h.q, snd := ⟨rfl, rfl⟩,
               sent := h.sent.snoc (r := Sub.Resp.sync) rfl trivial _, single := h.single, nca := h.nca, wanted := h.wanted }
   · have hends : SubLTS.endsStreamR (C06Glue.subSys reqs) (ltsOf rq) r' =
         (Sub.isTargetDelete r && rq.1.target != "*") := by
@@ -780,6 +780,9 @@ structure VRel (V : Views) (H : String → Bool) (sh : LShared) : Prop where
   pend : sh.pend = []
   keys : ∀ k, sh.present k = true → k ∈ sh.keys
   plain : ∀ t k n, lookup (V t) k = some n → n.atomic = false
+  /-- no quiet write (event-driven suppression) happened: the simulated fragment has event-driven
+  emulation off, every tree write is announced -/
+  quiet : sh.qlog = []
 
 /-- what a feed event must look like for the LTS to have a writer unit for it: a plain
 (non-atomic) leaf of an existing target; a delete whose origin is not the wildcard -/
@@ -888,7 +891,7 @@ theorem ev_vrel (reqs : Nat → Sub.Req × Sub.Acl) {V : Views} {H : String → 
       · rw [if_neg hk] at hm; exact hv.plain t k m hm
     by_cases hpr : sh.present (n.target, Sub.eventKey n) = true
     · simp only [evShared, hpr, if_true]
-      refine ⟨?_, ?_, hv.hasT, rfl, hv.keys, hplain⟩
+      refine ⟨?_, ?_, hv.hasT, rfl, hv.keys, hplain, hv.quiet⟩
       · intro t k
         rw [hl t k]
         show sh.present (t, k) = _
@@ -911,7 +914,7 @@ theorem ev_vrel (reqs : Nat → Sub.Req × Sub.Acl) {V : Views} {H : String → 
           exact hv.val t k m hm
     · have hpr' : sh.present (n.target, Sub.eventKey n) = false := by simpa using hpr
       simp only [evShared, hpr', Bool.false_eq_true, if_false]
-      refine ⟨?_, ?_, hv.hasT, rfl, ?_, hplain⟩
+      refine ⟨?_, ?_, hv.hasT, rfl, ?_, hplain, hv.quiet⟩
       · intro t k
         rw [hl t k]
         show SubLTS.setFn sh.present _ true (t, k) = _
@@ -955,7 +958,7 @@ theorem ev_vrel (reqs : Nat → Sub.Req × Sub.Acl) {V : Views} {H : String → 
   | del te o p ts =>
     have ho : o ≠ glob := hp
     simp only [evShared]
-    refine ⟨?_, ?_, ?_, rfl, ?_, ?_⟩
+    refine ⟨?_, ?_, ?_, rfl, ?_, ?_, hv.quiet⟩
     rotate_left 4
     · intro t k m hm
       rw [lookup_applyS_del] at hm
@@ -1798,7 +1801,8 @@ theorem feed_sim (reqs : Nat → Sub.Req × Sub.Acl) {st : Sub.State} {c : LCfg}
       hasT := fun t => by rw [hT]; exact hv1.hasT t
       pend := hv1.pend
       keys := hv1.keys
-      plain := fun t k n hn => hv1.plain t k n (by rw [← hcont]; exact hn) }
+      plain := fun t k n hn => hv1.plain t k n (by rw [← hcont]; exact hn)
+      quiet := hv1.quiet }
   obtain ⟨ls2, c2, hf2, hsh2, hs2⟩ := subs_local reqs hs1
     (fun s => Sub.pumpAll { s with queue := Sub.refreshQueue c' s.queue }) (by
       intro i s hi
@@ -2690,7 +2694,8 @@ theorem add_sim (reqs : Nat → Sub.Req × Sub.Acl) {st : Sub.State} {c : LCfg} 
                 rw [SubLTS.setFn_other _ _ ht, this]; exact h.vrel.hasT t
             pend := h.vrel.pend
             keys := h.vrel.keys
-            plain := fun t k n hn => h.vrel.plain t k n (by rw [← htrees]; exact hn) }
+            plain := fun t k n hn => h.vrel.plain t k n (by rw [← htrees]; exact hn)
+            quiet := h.vrel.quiet }
   · intro i s hi
     exact SRel.congr (sh := c.sh) (sh' := { c.sh with hasT := SubLTS.setFn c.sh.hasT name true }) rfl rfl rfl
       (h.subs.rel i s hi)
